@@ -96,5 +96,5 @@ pub fn vx_ts_rep_sep(t: &mut TokenStream, xs: &Vec<TokenStream>, sep: u64)
 pub fn vx_panic() -> ! { panic!() }
 // a panic the property forbids (R6, panic=forbid): reaching it is a verification failure
 pub fn vx_forbidden_panic() -> !
-    requires false,
+    requires false, // @ob PANIC.forbidden
 { vx_panic() }
